@@ -1,6 +1,7 @@
 import Genq.Props.C06
 open Genq.Types
 open Genq.Codec
+open Genq
 #print axioms C06_unique_keys
 #print axioms C06_direct_field_wins
 #print axioms C06_json_name_is_the_key
@@ -9,3 +10,4 @@ open Genq.Codec
 #print axioms C06_marshaled_object_covers_every_field
 #print axioms C06_roundtrip_needs_coherence_witness
 #print axioms C06_null_object_with_abstract_list_witness
+#print axioms C06_codec_template_tie
